@@ -434,8 +434,9 @@ def main(argv):
     )
     evidence = dict(property_id=prop, tier=tier, seed=seed, level=level, coverage=coverage,
                     assumptions=assumptions, wall_s=round(time.time() - t0, 2), violations=len(violations))
-    os.makedirs(os.path.join(HERE, "evidence"), exist_ok=True)
-    json.dump(evidence, open(os.path.join(HERE, "evidence", prop + ".json"), "w"), indent=1)
+    evdir = os.environ.get("PYVC_EVIDENCE_DIR") or os.path.join(HERE, "evidence")   # run_seeded.py keeps mutant runs apart
+    os.makedirs(evdir, exist_ok=True)
+    json.dump(evidence, open(os.path.join(evdir, prop + ".json"), "w"), indent=1)
 
     print("%s tier=%s: %d/%d obligations discharged, %d refuted, %d undecided; proofs undecided: %d; "
           "bounded evaluations: %d; wall %.1fs" % (
